@@ -59,7 +59,14 @@ class MemoBackend(PythonECDSABackend):
 
 ADD_POOL = ["AA", "AA2", "AT1", "AT_aa2", "SUB", "AT_sub", "AT_root", "AT_esc", "SUB_all", "AT_suball", "SUB_noapp", "SUB_deep",
             "AT_byat", "R'", "AA'", "AT'", "AT_resigned", "AT_claimAA", "AT_selfclaim", "AT_self", "AA_self", "AT_aaself", "R",
-            "AT_cam", "AT_win"]
+            "AT_cam", "AT_win",
+            # several issuing groups / several application entries in every order (escalating PSID first / last / middle, 'all' mixed in)
+            "AA_n", "SUB_mg_first", "SUB_mg_last", "SUB_mg_mid", "SUB_mg_allfirst", "SUB_mg_alllast", "SUB_mg_ok",
+            "AT_mg139_first", "AT_mg139_last", "AT_mg139_mid", "AT_mgok", "AT_app_first", "AT_app_last", "AT_app_mid"]
+EXTRA_CHAINS = [("SUB_mg_first", "AA_n"), ("SUB_mg_last", "AA_n"), ("SUB_mg_mid", "AA_n"), ("SUB_mg_allfirst", "AA_n"),
+                ("SUB_mg_alllast", "AA_n"), ("SUB_mg_ok", "AA_n"), ("SUB_mg_first", "AA_n", "R"), ("SUB_mg_mid", "AA_n", "R"),
+                ("AT_app_first", "AA_n"), ("AT_app_last", "AA_n"), ("AT_app_mid", "AA_n", "R"), ("AT_mg139_first",), ("AT_mg139_mid",),
+                ("AT_mg139_last",), ("AT_mgok",)]
 CHAIN_POOL_Q = ["AT1", "AT'", "AA", "AA'", "R", "R'", "SUB_all", "AT_esc"]
 CHAIN_POOL_T = CHAIN_POOL_Q + ["AT_suball", "SUB", "AT_sub", "AA2"]
 
@@ -85,6 +92,12 @@ def build_messages():
         for mode in ("cert", "digest"):
             for dt in (-H2, +H2):
                 mk(x, mode, S.PSID_CAM, dt)
+    for x in ("AT_mg139_first", "AT_mg139_last", "AT_mg139_mid", "AT_app_first", "AT_app_last", "AT_app_mid"):
+        for mode in ("cert", "digest"):
+            mk(x, mode, S.PSID_GEN, 0)
+    for mode in ("cert", "digest"):
+        mk("AT_mgok", mode, S.PSID_CAM, 0)
+        mk("AT_mgok", mode, S.PSID_GEN, 0)
     # certificates arriving inside (authentic) messages: requestedCertificate learning path
     for c in ("AA2", "AA'", "AA_self", "SUB_all", "R'"):
         mk("AT1", "cert", S.PSID_CAM, 0, extra={"requestedCertificate": p.d(c), "inlineP2pcdRequest": [p.h8("AA")[-3:]]}, tag=f"/req:{c}")
@@ -115,7 +128,7 @@ def tables(thorough):
     adds[("AT_claimAA", "AA'")] = p.plain("AT_claimAA", "AA'")
     adds[("AT'", "AA")] = p.plain("AT'", "AA")
     pool = CHAIN_POOL_T if thorough else CHAIN_POOL_Q
-    chains = [seq for k in (1, 2, 3) for seq in itertools.permutations(pool, k)]
+    chains = [seq for k in (1, 2, 3) for seq in itertools.permutations(pool, k)] + EXTRA_CHAINS
     _EV = dict(thorough=thorough, adds=adds, chains=chains, msgs=build_messages(), backend=MemoBackend(p.backend.keys))
     return _EV
 
@@ -268,10 +281,12 @@ class StoreModel:
         return w.bad
 
     def canon(self, w):
-        lib, ss = w.lib, w.sign
+        # The SignService P2PCD lists (unknown_ats, requested_ats, requested flag) are only WRITTEN by the verify path and
+        # read by sign_cam, which is not in this alphabet: store contents and verify reports do not depend on them, so
+        # states that differ only there have equal futures for C09 and are merged.
+        lib = w.lib
         return (tuple(sorted(lib.known_root_certificates)), tuple(sorted(lib.known_authorization_authorities)),
-                tuple(sorted(lib.known_authorization_tickets)), tuple(sorted(lib.own_certificates)),
-                tuple(sorted(ss.unknown_ats)), tuple(sorted(ss.requested_ats)), ss.cam_handler.requested_own_certificate)
+                tuple(sorted(lib.known_authorization_tickets)), tuple(sorted(lib.own_certificates)))
 
     def outcome(self, w, obs):
         return obs
@@ -346,38 +361,75 @@ def _accept_job(args):
 # Part C: issuing API lattice
 # ------------------------------------------------------------------------------------------------
 PQ = (36, 37)
+PSID_R = 139            # third PSID: outside every explicit root of the lattice
 
 
 def _subsets(xs):
     return [c for k in range(len(xs) + 1) for c in itertools.combinations(xs, k)]
 
 
-def _issue_opts(budgets):
-    """issuing-permission requests: None (no certIssuePermissions), ('all', b), ('explicit', subset, b)."""
-    out = [None]
+def _single_groups(budgets):
+    out = []
     for b in budgets:
-        out.append(("all", b))
+        out.append((("all", b),))
         for sub in _subsets(PQ):
             if sub:
-                out.append(("explicit", sub, b))
+                out.append((("explicit", sub, b),))
     return out
 
 
+def _multi_groups(rich):
+    """Requests with SEVERAL groups: ordered pairs of {all, {p}, {q}, {r}} with differing budgets, and every order of
+    the triple ({p}, {q}, {r}) - the escalating PSID r first / in the middle / last."""
+    base = [("all",), ("explicit", (PQ[0],)), ("explicit", (PQ[1],)), ("explicit", (PSID_R,))]
+    out = []
+    if rich:
+        for bs in ((1, 1), (2, 1)):
+            for g1, g2 in itertools.permutations(base, 2):
+                out.append((g1 + (bs[0],), g2 + (bs[1],)))
+    else:
+        for g1, g2 in ((base[0], base[1]), (base[1], base[0]), (base[1], base[3]), (base[3], base[1])):
+            out.append((g1 + (1,), g2 + (1,)))
+    trip = [("explicit", (PQ[0],)), ("explicit", (PQ[1],)), ("explicit", (PSID_R,))]
+    for bs in ((1, 1, 1), (2, 1, 2)) if rich else ((1, 1, 1),):
+        for perm3 in itertools.permutations(trip, 3):
+            out.append(tuple(g + (b,) for g, b in zip(perm3, bs)))
+    return out
+
+
+APP_RICH = [(), (36,), (37,), (36, 37), (37, 36), (139, 36), (36, 139), (36, 139, 37)]
+APP_MID = [(), (36,), (37, 36), (139, 36)]
+APP_LAST = [(), (36,), (37,), (36, 37)]
+
+
 def _tbs(name, app, issue):
+    """``issue``: None or a tuple of groups ('all', budget) / ('explicit', psids, budget); chainLengthRange differs per group."""
     ip = None
     if issue is not None:
-        ip = [S.perm(("all", None), issue[1])] if issue[0] == "all" else [S.perm(S.explicit(issue[1]), issue[2])]
+        ip = []
+        for i, g in enumerate(issue):
+            sp = ("all", None) if g[0] == "all" else S.explicit(g[1])
+            ip.append(S.perm(sp, g[-1], (0, 1, -1)[i % 3]))
     return S.tbs_cert(name, app=list(app) if app is not None else None, issue=ip)
 
 
 def _level_options(dpt, depth, budgets):
-    out = []
-    for app in _subsets(PQ):
-        for issue in _issue_opts(budgets if dpt < depth else budgets[:1]):
-            if dpt == depth and issue is not None and issue[0] == "explicit" and len(issue[1]) > 1:
-                continue
-            out.append((app, issue))
-    return out
+    if dpt == 1:
+        issues = [None] + _single_groups(budgets) + _multi_groups(True)
+        return [(app, iss) for app in APP_RICH for iss in issues]
+    if dpt < depth:
+        issues = [None] + _single_groups(budgets[:2]) + _multi_groups(False)
+        return [(app, iss) for app in APP_MID for iss in issues]
+    issues = [None] + _single_groups(budgets[:1])[:3] + [(("explicit", (PQ[0],), 0), ("explicit", (PSID_R,), 0))]
+    return [(app, iss) for app in APP_LAST for iss in issues]
+
+
+def _root_options(budgets, thorough):
+    roots = _single_groups(budgets) + ([(("all", 3),)] if 3 not in budgets else [])
+    # roots with several groups and differing budgets, both orders; 'all' mixed with explicit
+    roots += [(("explicit", (36,), 2), ("explicit", (37,), 1)), (("explicit", (37,), 1), ("explicit", (36,), 2)),
+              (("all", 1), ("explicit", (36,), 2)), (("explicit", (36,), 2), ("all", 1))]
+    return roots
 
 
 def _issuing_job(args):
@@ -419,8 +471,8 @@ def _issuing_job(args):
                                             issuer_budget=CC.issue_perms(di)[2], **label))
                         if impl_ok != ref_ok:
                             bad.append(dict(kind="issued_verify_disagreement", impl_verify=impl_ok, ref_signature=ref_ok, **label))
-                        if issue is not None and "certIssuePermissions" in d["toBeSigned"] and d["toBeSigned"]["certIssuePermissions"]:
-                            nxt.append((sub, ipath + ((tuple(app), issue),)))
+                        if issue is not None and tuple(app) == (36,) and d["toBeSigned"].get("certIssuePermissions"):
+                            nxt.append((sub, ipath + ((tuple(app), issue),)))     # the CA's own app permissions do not matter below
             level = nxt
     finally:
         env.ENV.urandom_state = prev
@@ -429,7 +481,7 @@ def _issuing_job(args):
 
 def run(ctx):
     thorough = ctx.tier == "thorough"
-    depth = 4 if thorough else 3
+    depth = 5 if thorough else 4
     r, n_events = explore_store(False, ctx.seed, depth)
     for rec, hist in r.violations:
         ctx.violation(rec, replay=dict(part="store", thorough=False, history=hist))
@@ -464,8 +516,7 @@ def run(ctx):
         ctx.parts["accept_lattice"] = dict(evaluations=nb, accepted=accb, tickets=tickets)
         # part C
         budgets = (0, 1, 2) if not thorough else (0, 1, 2, 3)
-        roots = [("all", b) for b in budgets + ((3,) if not thorough else ())] + \
-                [("explicit", sub, b) for sub in _subsets(PQ) if sub for b in budgets]
+        roots = _root_options(budgets, thorough)
         nc = ver = ref = rai = 0
         ijobs = [(ri, first, 3, budgets) for ri in roots for first in _level_options(1, 3, budgets)]
         random.Random(ctx.seed).shuffle(ijobs)
@@ -476,7 +527,7 @@ def run(ctx):
             rai += x
             for rec in bad:
                 rec["root"] = repr(root_issue)
-                ctx.violation(rec, replay=dict(part="issuing", root=list(root_issue), app=rec["app"], issue=rec["issue"], depth=rec["depth"]))
+                ctx.violation(rec, replay=dict(part="issuing", root=[list(g) for g in root_issue], app=rec["app"], issue=rec["issue"], depth=rec["depth"]))
         ctx.parts["issuing_lattice"] = dict(evaluations=nc, verified=ver, refused_unsigned=ref, raised=rai, roots=len(roots), depth=3)
     ctx.coverage.update(
         states=r.states, transitions=r.transitions + nb + nc, traces_validated_against_impl=r.transitions + nb + nc,
@@ -513,7 +564,9 @@ def replay(path):
         t, n, acc, bad = _accept_job((rp["ticket"],))
         print(t, n, acc, bad[:5] or "ok")
         return 1 if bad else 0
-    root = tuple(tuple(x) if isinstance(x, list) else x for x in rp["root"])
+    def tup(x):
+        return tuple(tup(y) for y in x) if isinstance(x, list) else x
+    root = tup(rp["root"])
     bad = []
     for first in _level_options(1, 3, (0, 1, 2)):
         out = _issuing_job((root, first, 3, (0, 1, 2)))
